@@ -80,6 +80,8 @@ func atomType(a string) reflect.Type {
 	switch a {
 	case "sT0":
 		return reflect.SliceOf(univ.Type("T0"))
+	case "ssT0":
+		return reflect.SliceOf(reflect.SliceOf(univ.Type("T0")))
 	case "sI0":
 		return reflect.SliceOf(univ.Type("I0"))
 	case "NS":
